@@ -3,12 +3,14 @@ From Coq Require Import MSets.MSetPositive FSets.FMapPositive.
 From SwayV Require Import Base.Util Asm.Model Asm.Erase Asm.Delete C08.Spec C08.Model C08.Check C07.Model C07.Spec.
 Local Open Scope N_scope.
 
-Lemma remove_redundant_ops_select : forall ops, remove_redundant_ops ops = select (redundant_keep ops) ops.
+Lemma rro_aux_select all : forall l i, rro_aux all i l = select (rro_keep_aux all i l) l.
 Proof.
-  induction ops as [|o t IH]; [reflexivity|].
-  cbn [remove_redundant_ops redundant_keep select].
-  destruct (rro_drop o t); cbn [negb]; rewrite IH; reflexivity.
+  induction l as [|o t IH]; intros i; [reflexivity|].
+  cbn [rro_aux rro_keep_aux select]. destruct (rro_drop all i o); cbn [negb]; rewrite IH; reflexivity.
 Qed.
+
+Lemma remove_redundant_ops_select : forall ops, remove_redundant_ops ops = select (redundant_keep ops) ops.
+Proof. intros ops. apply rro_aux_select. Qed.
 
 Lemma In_memb r l : In r l -> memb r l = true.
 Proof. intros H. unfold memb. apply existsb_exists. exists r. split; [exact H | apply N.eqb_refl]. Qed.
@@ -126,25 +128,16 @@ Proof.
   apply negb_true_iff. apply H. exact Hx.
 Qed.
 
-Lemma nth_error_skipn_add {A} : forall (l : list A) i k, nth_error l (i + k) = nth_error (skipn i l) k.
-Proof.
-  induction l as [|x l IH]; intros i k.
-  - destruct i; destruct k; reflexivity.
-  - destruct i as [|i]; [reflexivity|]. cbn. apply IH.
-Qed.
-
 (* what the guard establishes: no pending register is live (kill = defs ++ cdefs) at i *)
-Lemma flags_guard_dead ops : forall rest P i, (forall k, nth_error ops (i + k) = nth_error rest k) ->
-  flags_guard P rest = true -> forall c, In c P -> ~ live_in_c ops i c.
+Lemma flags_guard_dead ops : forall fuel P i,
+  flags_guard fuel ops P i = true -> forall c, In c P -> ~ live_in_c ops i c.
 Proof.
-  induction rest as [|n t IH]; intros P i Hsuf Hg c Hc Hlive.
-  - specialize (Hsuf 0%nat). rewrite Nat.add_0_r in Hsuf. cbn in Hsuf.
-    unfold live_in_c in Hlive. inversion Hlive; congruence.
+  induction fuel as [|f IH]; intros P i Hg c Hc Hlive.
+  - destruct P; [destruct Hc | discriminate].
   - destruct P as [|p0 P0]; [destruct Hc|]. remember (p0 :: P0) as P eqn:HP.
-    assert (Hn : nth_error ops i = Some n) by (specialize (Hsuf 0%nat); rewrite Nat.add_0_r in Hsuf; exact Hsuf).
-    assert (Hsuf' : forall k, nth_error ops (S i + k) = nth_error t k).
-    { intros k. specialize (Hsuf (S k)). rewrite Nat.add_succ_r in Hsuf. exact Hsuf. }
     cbn [flags_guard] in Hg. rewrite HP in Hg. rewrite <- HP in Hg.
+    destruct (nth_error ops i) as [n|] eqn:Hn.
+    2:{ unfold live_in_c in Hlive. inversion Hlive; congruence. }
     destruct (disjoint_b P (uses n)) eqn:Hdis; cbn [negb] in Hg; [|discriminate].
     unfold live_in_c in Hlive. inversion Hlive as [i0 o0 r0 Hn0 Hu | i0 o0 j r0 Hn0 Hj Hl Hnk]; subst.
     + rewrite Hn in Hn0. injection Hn0 as <-. exact (disjoint_b_sound _ _ Hdis c Hc Hu).
@@ -155,27 +148,41 @@ Proof.
         destruct (memb c (cdefs n ++ defs n)) eqn:E; [|reflexivity]. exfalso. apply Hnk.
         apply memb_In in E. unfold defs_c. apply in_app_or in E. apply in_or_app. tauto. }
       unfold succs in Hj. rewrite Hn in Hj. unfold succs_of in Hj.
-      assert (Hnext : flags_guard P' t = true -> j = S i -> False).
-      { intros Hg' ->. exact (IH P' (S i) Hsuf' Hg' c Hc' Hl). }
+      assert (Hnext : forall k, flags_guard f ops P' k = true -> j = k -> False).
+      { intros k Hg' ->. exact (IH P' k Hg' c Hc' Hl). }
       assert (Hnil : nil_b P' = true -> False) by (intros E; apply nil_b_nil in E; rewrite E in Hc'; destruct Hc').
-      destruct (kind n) as [d s| |l|l|l c0|l| |r|opc args]; try (exact (Hnil Hg)).
-      * destruct Hj as [<-|[]]. exact (Hnext Hg eq_refl).
-      * destruct Hj as [<-|[]]. exact (Hnext Hg eq_refl).
-      * destruct Hj as [<-|[]]. exact (Hnext Hg eq_refl).
-      * destruct (is_org_stop opc); [exact (Hnil Hg)|].
-        destruct (N.eqb opc OPC_RVRT); [destruct Hj|]. destruct Hj as [<-|[]]. exact (Hnext Hg eq_refl).
+      destruct (kind n) as [d s| |l|l|l c0|l| |r|opc args].
+      * destruct Hj as [<-|[]]. exact (Hnext _ Hg eq_refl).
+      * destruct Hj as [<-|[]]. exact (Hnext _ Hg eq_refl).
+      * destruct Hj as [<-|[]]. exact (Hnext _ Hg eq_refl).
+      * destruct (label_index ops l) as [t|]; [|destruct Hj]. destruct Hj as [<-|[]]. exact (Hnext _ Hg eq_refl).
+      * exact (Hnil Hg).
+      * exact (Hnil Hg).
+      * destruct Hj.
+      * exact (Hnil Hg).
+      * destruct (N.eqb opc OPC_RVRT); [destruct Hj|]. destruct Hj as [<-|[]]. exact (Hnext _ Hg eq_refl).
 Qed.
 
-Lemma redundant_keep_nth : forall ops i,
-  nth_error (redundant_keep ops) i =
-  option_map (fun o => negb (rro_drop o (skipn (S i) ops))) (nth_error ops i).
+Lemma rro_keep_nth all : forall l b k,
+  nth_error (rro_keep_aux all b l) k = option_map (fun o => negb (rro_drop all (b + k) o)) (nth_error l k).
 Proof.
-  induction ops as [|o t IH]; intros i; [destruct i; reflexivity|].
-  destruct i as [|i]; [reflexivity|]. cbn [redundant_keep nth_error]. rewrite IH. reflexivity.
+  induction l as [|o t IH]; intros b k; [destruct k; reflexivity|].
+  destruct k as [|k]; cbn [rro_keep_aux nth_error option_map].
+  - rewrite Nat.add_0_r. reflexivity.
+  - rewrite IH. rewrite <- Nat.add_succ_comm. reflexivity.
 Qed.
+
+Lemma redundant_keep_nth ops i :
+  nth_error (redundant_keep ops) i = option_map (fun o => negb (rro_drop ops i o)) (nth_error ops i).
+Proof. unfold redundant_keep. rewrite rro_keep_nth. reflexivity. Qed.
 
 Lemma redundant_keep_length ops : length (redundant_keep ops) = length ops.
-Proof. induction ops as [|o t IH]; cbn; [reflexivity|]. rewrite IH. reflexivity. Qed.
+Proof.
+  unfold redundant_keep.
+  assert (H : forall l b, length (rro_keep_aux ops b l) = length l).
+  { induction l as [|o t IH]; intros b; cbn; [reflexivity|]. rewrite IH. reflexivity. }
+  apply H.
+Qed.
 
 Theorem remove_redundant_ops_preserves ops : rro_table_ok ops = true ->
   forall (M : Type) sem call_sem, rvrt_stops M sem -> mcp_zero_skips M sem ops ->
@@ -209,8 +216,7 @@ Proof.
         destruct Hfl as [E|E]; apply N.eqb_eq in E; [left|right]; exact E.
       + intros (j & Hj & Hl).
         assert (Hdead : ~ live_in_c ops (S i) c).
-        { apply (flags_guard_dead ops (skipn (S i) ops) (cdefs o) (S i)); [|exact Hg|exact Hc].
-          intros k. apply nth_error_skipn_add. }
+        { exact (flags_guard_dead ops _ (cdefs o) (S i) Hg c Hc). }
         unfold succs in Hj. rewrite Hn in Hj. unfold succs_of in Hj. unfold redundant_op in Hred.
         destruct (kind o) as [d s| |l|l|l c0|l| |r|opc args]; try discriminate.
         * destruct Hj as [<-|[]]. exact (Hdead Hl).
